@@ -335,3 +335,70 @@ Proof.
 Qed.
 
 End Valid2.
+
+(* ------------------------------------------------------------------ *)
+(** * whether pairs are computed at a level (_diff_iterable_with_deephash, diff.py:1302-1325) *)
+From Coq Require Import QArith.
+
+(* get_pairs: NOT (len(hashes_added) + len(hashes_removed)) / (len(full_t1_hashtable) + len(full_t2_hashtable) + 1) > cutoff_intersection_for_pairs *)
+Definition get_pairs_spec (cut : Q) (na nr : nat) (n1 n2 : N) : bool :=
+  Qle_bool ((inject_Z (Z.of_nat na) + inject_Z (Z.of_nat nr)) / (inject_Z (Z.of_N n1) + inject_Z (Z.of_N n2) + inject_Z 1)) cut.
+
+(* the pairs dictionary of a level and the pass counter afterwards *)
+Definition level_pairs_spec (A D : Type) (aeqb : A -> A -> bool) (dltb deqb : D -> D -> bool)
+    (loop : A -> bool) (dist : A -> A -> D) (cutoff : D) (cut : Q) (maxp passes n1 n2 : N) (adds rems : list A) : list (A * A) * N :=
+  if N.ltb passes maxp && get_pairs_spec cut (List.length adds) (List.length rems) n1 n2
+  then (select A D aeqb dltb deqb cutoff (trips A D loop dist adds rems), (passes + 1)%N)
+  else ([], passes).
+
+Lemma get_pairs_off cut na nr n1 n2 : (cut <= 0)%Q -> (0 < na + nr)%nat -> get_pairs_spec cut na nr n1 n2 = false.
+Proof.
+  intros Hc Hn. unfold get_pairs_spec.
+  destruct (Qle_bool _ cut) eqn:E; [|reflexivity]. exfalso. apply Qle_bool_iff in E.
+  set (x := (inject_Z (Z.of_nat na) + inject_Z (Z.of_nat nr))%Q) in *.
+  set (y := (inject_Z (Z.of_N n1) + inject_Z (Z.of_N n2) + inject_Z 1)%Q) in *.
+  assert (Hx : (0 < x)%Q).
+  { unfold x. rewrite <- inject_Z_plus. change 0%Q with (inject_Z 0). rewrite <- Zlt_Qlt. lia. }
+  assert (Hy : (0 < y)%Q).
+  { unfold y. rewrite <- !inject_Z_plus. change 0%Q with (inject_Z 0). rewrite <- Zlt_Qlt. lia. }
+  assert (Hxy : (0 < x / y)%Q) by (apply Qlt_shift_div_l; [exact Hy|rewrite Qmult_0_l; exact Hx]).
+  apply (Qlt_not_le _ _ Hxy). apply (Qle_trans _ cut); assumption.
+Qed.
+
+(* max_passes = 0, or cutoff_intersection_for_pairs <= 0: no pairs at any level, for every distance table (what the harness
+   calls "pairing off": the model is then given the empty oracle) *)
+Theorem level_pairs_off (A D : Type) aeqb dltb deqb loop dist cutoff cut maxp passes n1 n2 adds rems :
+  maxp = 0%N \/ (cut <= 0)%Q ->
+  fst (level_pairs_spec A D aeqb dltb deqb loop dist cutoff cut maxp passes n1 n2 adds rems) = [].
+Proof.
+  intros [->|Hc]; unfold level_pairs_spec.
+  - destruct passes; reflexivity.
+  - destruct (N.ltb passes maxp); cbn [andb]; [|reflexivity].
+    destruct adds as [|a adds]; [destruct rems as [|r rems]|].
+    + destruct (get_pairs_spec _ _ _ _ _); reflexivity.
+    + rewrite get_pairs_off; [reflexivity|exact Hc|cbn [List.length]; lia].
+    + rewrite get_pairs_off; [reflexivity|exact Hc|cbn [List.length]; lia].
+Qed.
+
+(* whatever the knobs, the dictionary of a level is the selection or empty *)
+Lemma level_pairs_cases (A D : Type) aeqb dltb deqb loop dist cutoff cut maxp passes n1 n2 adds rems :
+  fst (level_pairs_spec A D aeqb dltb deqb loop dist cutoff cut maxp passes n1 n2 adds rems) = [] \/
+  fst (level_pairs_spec A D aeqb dltb deqb loop dist cutoff cut maxp passes n1 n2 adds rems) = select A D aeqb dltb deqb cutoff (trips A D loop dist adds rems).
+Proof. unfold level_pairs_spec. destruct (_ && _); [right|left]; reflexivity. Qed.
+
+Theorem level_pairs_valid_pairs_at (H : pystr -> pystr) c rep (D : Type) (dltb deqb : D -> D -> bool) :
+  forall xs ys loop (dist : pystr -> pystr -> D) cutoff cut maxp passes n1 n2,
+  let adds := hashes_added H c rep xs ys in
+  let rems := hashes_removed H c rep xs ys in
+  valid_pairs_at H c rep xs ys
+    (idx_pairs (h1 H c rep xs) (h2 H c rep ys)
+       (oracle_of_dict pystr pystr_eqb adds
+          (fst (level_pairs_spec pystr D pystr_eqb dltb deqb loop dist cutoff cut maxp passes n1 n2 adds rems)))) = true.
+Proof.
+  intros xs ys loop dist cutoff cut maxp passes n1 n2 adds rems.
+  destruct (level_pairs_cases pystr D pystr_eqb dltb deqb loop dist cutoff cut maxp passes n1 n2 adds rems) as [E|E]; rewrite E.
+  - assert (E0 : forall l, oracle_of_dict pystr pystr_eqb l [] = []).
+    { unfold oracle_of_dict. induction l as [|a l IH]; [reflexivity|exact IH]. }
+    rewrite E0. reflexivity.
+  - apply select_valid_pairs_at.
+Qed.
